@@ -223,6 +223,36 @@ func (c *ctx) cmpOps(name string) (ops [][2]string, deflt bool, hasDeflt bool) {
 	return
 }
 
+// litElems returns the elements of a slice/array composite literal by index, whether written
+// positionally (`{a, b}`), with index keys (`{0: a, 1: b}`, in any order) or mixed (an element without
+// key follows the previous index, as in Go).  Indices that are skipped hold nil (the zero value).
+// ok = false when a key is not a constant in 0..63 or an index occurs twice.
+func (c *ctx) litElems(lit *ast.CompositeLit) (elems []ast.Expr, ok bool) {
+	byIndex := map[int64]ast.Expr{}
+	next, size := int64(0), int64(0)
+	for _, e := range lit.Elts {
+		if kv, isKV := e.(*ast.KeyValueExpr); isKV {
+			k, isConst := c.constInt(kv.Key)
+			if !isConst {
+				return nil, false
+			}
+			next, e = k, kv.Value
+		}
+		if _, dup := byIndex[next]; dup || next < 0 || next > 63 {
+			return nil, false
+		}
+		byIndex[next] = e
+		next++
+		if next > size {
+			size = next
+		}
+	}
+	for i := int64(0); i < size; i++ {
+		elems = append(elems, byIndex[i])
+	}
+	return elems, true
+}
+
 func (c *ctx) cmpTable() *leanFile {
 	l := newLean("CmpTable", "operator.go (logicalFuncs, cmp*F, cmpXxxYyy, eqFunc..neFunc)", false)
 
@@ -234,17 +264,31 @@ func (c *ctx) cmpTable() *leanFile {
 	var table [][]cell
 	var cells []string
 	if vs := c.varDecl("logicalFuncs"); vs != nil && len(vs.Values) == 1 {
+		unknownRow := []cell{{"?", true}}
 		if lit, ok := unparen(vs.Values[0]).(*ast.CompositeLit); ok {
-			for _, row := range lit.Elts {
+			rowElts, ok := c.litElems(lit)
+			if !ok {
+				table = append(table, unknownRow)
+			}
+			for _, row := range rowElts {
+				if row == nil { // index skipped by the keys: a nil row
+					table = append(table, []cell{})
+					continue
+				}
 				rl, ok := unparen(row).(*ast.CompositeLit)
 				if !ok {
-					table = append(table, []cell{{"?", true}})
+					table = append(table, unknownRow)
+					continue
+				}
+				elts, ok := c.litElems(rl)
+				if !ok {
+					table = append(table, unknownRow)
 					continue
 				}
 				var r []cell
-				for _, e := range rl.Elts {
+				for _, e := range elts {
 					switch {
-					case isNil(e):
+					case e == nil || isNil(e): // skipped index: the zero value, nil
 						r = append(r, cell{"", false})
 					case identName(e) != "":
 						r = append(r, cell{identName(e), true})
